@@ -41,8 +41,8 @@ CLAIMED["C07"] = dict(
     ref="6/C07")
 
 CLAIMED["C13"] = dict(
-    text="Proof: for Box<Vec2<T>>, Box<Vec3<T>> (the hand-unrolled specialisations), Box<Vec4<T>> (the generic template) and Interval<T> one generated contract text is enforced on every real function: default construction / makeEmpty give the canonical empty box, makeInfinite the full box, intersects(point) is membership for every min/max pair incl. inverted ones, intersects(box) has the closed form on non-empty boxes, extendBy(point/box) is per-axis min/max with exact frame (aliased argument included), isEmpty/hasVolume/isInfinite/size/center are the stated functions of min and max. Lemma units over the contracts: empty contains no ghost point, infinite contains every finite ghost point, extendBy yields the SMALLEST valid box containing what was added (ghost point and ghost enclosing box), the invariant is preserved, intersects(box) is symmetric, implied by any shared point and implies a shared witness point. ImathBoxAlgo.h: clip / closestPointInBox / closestPointOnBox contracts and nearest-point lemmas (ghost competitor point); transform / affineTransform on Box3f x M44f with uninterpreted arithmetic: all four overloads map empty to empty and infinite to infinite for an arbitrary previous result, the out-parameter forms leave exactly what the value forms return (affine and projective matrices), transform on an affine matrix equals affineTransform (this found and fixed a defect in transform(box, m, result), commit 760512d).",
-    note="Trusted: clang AST + cxx2c (differentially validated), cbmc 6.11, cvc5, z3. Points are finite non-NaN; set-level laws hold under the representation invariant (non-empty or canonical empty). Not covered: containment of the image of every point and tightness of Arvo's bound in IEEE arithmetic, majorAxis.",
+    text="Proof: for Box<Vec2<T>>, Box<Vec3<T>> (the hand-unrolled specialisations), Box<Vec4<T>> (the generic template) and Interval<T> one generated contract text is enforced on every real function: default construction / makeEmpty give the canonical empty box, makeInfinite the full box, intersects(point) is membership for every min/max pair incl. inverted ones, intersects(box) has the closed form on non-empty boxes, extendBy(point/box) is per-axis min/max with exact frame (aliased argument included), isEmpty/hasVolume/isInfinite/size/center/majorAxis (first axis of maximal size) are the stated functions of min and max. Lemma units over the contracts: empty contains no ghost point, infinite contains every finite ghost point, extendBy yields the SMALLEST valid box containing what was added (ghost point and ghost enclosing box), the invariant is preserved, intersects(box) is symmetric, implied by any shared point and implies a shared witness point. ImathBoxAlgo.h: clip / closestPointInBox / closestPointOnBox contracts and nearest-point lemmas (ghost competitor point); transform / affineTransform on Box3f x M44f with uninterpreted arithmetic: all four overloads map empty to empty and infinite to infinite for an arbitrary previous result, the out-parameter forms leave exactly what the value forms return (affine and projective matrices), transform on an affine matrix equals affineTransform (this found and fixed a defect in transform(box, m, result), commit 760512d).",
+    note="Trusted: clang AST + cxx2c (differentially validated), cbmc 6.11, cvc5, z3. Points are finite non-NaN; set-level laws hold under the representation invariant (non-empty or canonical empty). Not covered: containment of the image of every point and tightness of Arvo's bound in IEEE arithmetic.",
     technique="CBMC function contracts (dfcc) on extracted C for all three template copies, lemma harnesses with ghost points/boxes, cvc5",
     ref="6/C13")
 
